@@ -212,9 +212,23 @@ def _finish_decimal(self, complete, anchors, d, nominal):
     reported under its own kind"""
     ctx, rec, mode, pts = self.ctx, self.rec, self.mode, self.points
     TOL = F(1, 10 ** 5)
-    if nominal or d is None or not d or not R.dur_is_integral(d) or \
-            rec._format_number == 1:
+    if nominal or d is None or not d or rec._format_number == 1:
         return
+    binary = False
+    if not R.dur_is_integral(d):
+        # an interval that is a binary fraction of a second (down to 2**-30;
+        # a second-of-day below 86400 takes 17 bits, so such sums are exact
+        # in a float's 53) on whole-second anchors: nothing is tolerated -
+        # steps, count and anchor are decided exactly
+        den = F(R.dur_len(d)).denominator
+        given = rec._start_point if rec._format_number == 3 \
+            else rec._end_point
+        if den & (den - 1) or den > 2 ** 30 or \
+                not R.tp_is_integral(given) or \
+                given._second_of_minute is None:
+            return
+        binary = True
+        TOL = F(0)
     if any(x._hour_of_day == 24 for x in anchors):
         return
     if any(not R.tp_valid(mode, p, slack=F(1, 10 ** 6)) for p in pts):
@@ -246,7 +260,7 @@ def _finish_decimal(self, complete, anchors, d, nominal):
             return bad("step", "consecutive points are %s s apart, the "
                        "interval is %s s" % (float(b - a), float(step)))
     if complete and n is not None and len(pts) < 400:
-        if len(pts) == n - 1 and rec._end_point is not None:
+        if len(pts) == n - 1 and rec._end_point is not None and not binary:
             # the library's own next step lands beyond the end bound by
             # float rounding only (less than TOL)?
             try:
@@ -264,7 +278,7 @@ def _finish_decimal(self, complete, anchors, d, nominal):
         if len(pts) != n:
             return bad("count", "%d repetitions but %d points" % (
                 n, len(pts)))
-    ctx.cls(tag)
+    ctx.cls(tag + ("/binary-fraction-interval" if binary else ""))
     if len(pts) >= 2 and is_case:
         ctx.nontrivial(ctx.case_key)
 
@@ -347,6 +361,7 @@ def install(ctx, repo, probes):
     for fmt in (3, 4):
         for kind in ("bounded", "unbounded"):
             ctx.target("decimal/fmt%d/%s" % (fmt, kind))
+        ctx.target("decimal/fmt%d/bounded/binary-fraction-interval" % fmt)
 
 
 def given_anchor_instant(desc):
@@ -536,6 +551,17 @@ def workload(ctx, repo):
             case = {"op": "iterate", "desc": desc}
             ctx.case = case
             run_case(ctx, repo, case)
+    for k in range(n // 20):
+        # intervals far below a second (binary fractions: exact in floats)
+        mode = R.MODES[k % 4] if k % 2 else "gregorian"
+        desc = recgen.make(rng, mode, fmt=rng.choice((3, 4)),
+                           reps=rng.choice((2, 3, 5, 9)),
+                           interval={"seconds": 2.0 ** -rng.choice(
+                               (1, 10, 20, 28, 30, 30))})
+        case = {"op": "iterate", "desc": desc, "decimal": True}
+        ctx.case = case
+        ctx.ev("cases.tiny-interval")
+        run_case(ctx, repo, case)
     for k in range(n // 6):
         # anchors spelled with a decimal fraction (hh,h / hh:mm,m / ss,s)
         mode = R.MODES[k % 4] if k % 2 else "gregorian"
